@@ -49,4 +49,47 @@ the sender's token with only the node changed -/
 def envelopes (t : Tree) (host : Nat → Nat) (run me : Nat) (p : Pattern) : List (Nat × Token) :=
   (dests t me p).map fun j => (host j, ⟨run, j⟩)
 
+/-! ### errors: which of the addressed nodes get an envelope when some `SendTo` calls fail, and what the operation
+returns.  `SendTo` (treenode.go 151-178) fails without sending when the node handed in is nil, when the instance is
+closing (`n.closing` under the queue mutex), or when `Overlay.SendToTreeNode` answers an error; `SendToChildren`
+(809-820) and `SendToParent`, `SendTo` return at the **first** error (one error, the later children are not
+addressed); `Broadcast`, `Multicast`, `SendToChildrenInParallel` (770-857) go through **all** destinations and
+collect one error per failed one. -/
+
+/-- does the operation stop at the first error (and return a single error)? -/
+inductive Mode where | seq | all
+  deriving DecidableEq, Repr
+
+/-- which calls fail: all of them when the instance is closing, else the calls at the given positions of the
+destination list (a nil node, a send the overlay cannot make) -/
+structure Fault where
+  closing : Bool := false
+  bad : List Nat := []
+  deriving Repr
+
+def Fault.fails (f : Fault) (k : Nat) : Bool := f.closing || f.bad.contains k
+
+/-- the calls that succeed, as (destination, position) pairs — `all` mode -/
+def okCalls (f : Fault) (ds : List Nat) : List (Nat × Nat) := ds.zipIdx.filter fun p => !f.fails p.2
+def badCalls (f : Fault) (ds : List Nat) : List (Nat × Nat) := ds.zipIdx.filter fun p => f.fails p.2
+
+/-- nodes that get an envelope (in the order of the calls) and the number of errors the operation returns -/
+def outcome (m : Mode) (f : Fault) (ds : List Nat) : List Nat × Nat :=
+  match m with
+  | .all => ((okCalls f ds).map (·.1), (badCalls f ds).length)
+  | .seq =>
+    let sent := (ds.zipIdx.takeWhile fun p => !f.fails p.2).map (·.1)
+    (sent, if sent.length = ds.length then 0 else 1)
+
+def Pattern.mode : Pattern → Bool → Mode      -- the flag: the parallel variant of the send to the children
+  | .to _, _ => .seq
+  | .children, par => if par then .all else .seq
+  | .parent, _ => .seq
+  | .bcast, _ => .all
+  | .multi _, _ => .all
+
+/-- a send operation of node `me` under a fault pattern -/
+def sendx (t : Tree) (me : Nat) (p : Pattern) (par : Bool) (f : Fault) : List Nat × Nat :=
+  outcome (p.mode par) f (dests t me p)
+
 end C01.Send
